@@ -190,6 +190,46 @@ func getFileNameForType(typePrefix string, headerType HeaderFooterType) string {
 	}
 }
 
+// headerFooterFileName 返回某类型页眉/页脚使用的部件文件名，通常就是 getFileNameForType 的结果。
+// 打开的文档可能已把这个名字用于另一种类型的页眉/页脚（例如 header1.xml 是首页页眉），
+// 此时另选一个未使用的名字，避免覆盖原有部件。
+func (d *Document) headerFooterFileName(typePrefix string, hfType HeaderFooterType) string {
+	name := getFileNameForType(typePrefix, hfType)
+	if _, exists := d.parts["word/"+name]; !exists || d.Body == nil || d.documentRelationships == nil {
+		return name
+	}
+	usedByOtherType := false
+	check := func(refType, id string) {
+		if refType == string(hfType) {
+			return
+		}
+		for _, rel := range d.documentRelationships.Relationships {
+			if rel.ID == id && rel.Target == name {
+				usedByOtherType = true
+			}
+		}
+	}
+	for _, element := range d.Body.Elements {
+		if sectPr, ok := element.(*SectionProperties); ok {
+			for _, ref := range sectPr.HeaderReferences {
+				check(ref.Type, ref.ID)
+			}
+			for _, ref := range sectPr.FooterReferences {
+				check(ref.Type, ref.ID)
+			}
+		}
+	}
+	if !usedByOtherType {
+		return name
+	}
+	for n := 2; ; n++ {
+		candidate := fmt.Sprintf("%s%d.xml", typePrefix, n)
+		if _, exists := d.parts["word/"+candidate]; !exists {
+			return candidate
+		}
+	}
+}
+
 // AddHeader 添加页眉
 func (d *Document) AddHeader(headerType HeaderFooterType, text string) error {
 	header := createStandardHeader()
@@ -220,7 +260,7 @@ func (d *Document) AddHeader(headerType HeaderFooterType, text string) error {
 	fullXML := append([]byte(xml.Header), headerXML...)
 
 	// 获取文件名
-	fileName := getFileNameForType("header", headerType)
+	fileName := d.headerFooterFileName("header", headerType)
 	headerPartName := fmt.Sprintf("word/%s", fileName)
 
 	// 存储页眉内容
@@ -273,7 +313,7 @@ func (d *Document) AddFooter(footerType HeaderFooterType, text string) error {
 	fullXML := append([]byte(xml.Header), footerXML...)
 
 	// 获取文件名
-	fileName := getFileNameForType("footer", footerType)
+	fileName := d.headerFooterFileName("footer", footerType)
 	footerPartName := fmt.Sprintf("word/%s", fileName)
 
 	// 存储页脚内容
@@ -352,7 +392,7 @@ func (d *Document) AddHeaderWithPageNumber(headerType HeaderFooterType, text str
 	fullXML := append([]byte(xml.Header), headerXML...)
 
 	// 获取文件名
-	fileName := getFileNameForType("header", headerType)
+	fileName := d.headerFooterFileName("header", headerType)
 	headerPartName := fmt.Sprintf("word/%s", fileName)
 
 	// 存储页眉内容
@@ -431,7 +471,7 @@ func (d *Document) AddFooterWithPageNumber(footerType HeaderFooterType, text str
 	fullXML := append([]byte(xml.Header), footerXML...)
 
 	// 获取文件名
-	fileName := getFileNameForType("footer", footerType)
+	fileName := d.headerFooterFileName("footer", footerType)
 	footerPartName := fmt.Sprintf("word/%s", fileName)
 
 	// 存储页脚内容
@@ -590,7 +630,7 @@ func (d *Document) AddFormattedHeader(headerType HeaderFooterType, config *Heade
 	fullXML := append([]byte(xml.Header), headerXML...)
 
 	// 获取文件名
-	fileName := getFileNameForType("header", headerType)
+	fileName := d.headerFooterFileName("header", headerType)
 	headerPartName := fmt.Sprintf("word/%s", fileName)
 
 	// 存储页眉内容
@@ -655,7 +695,7 @@ func (d *Document) AddFormattedFooter(footerType HeaderFooterType, config *Heade
 	fullXML := append([]byte(xml.Header), footerXML...)
 
 	// 获取文件名
-	fileName := getFileNameForType("footer", footerType)
+	fileName := d.headerFooterFileName("footer", footerType)
 	footerPartName := fmt.Sprintf("word/%s", fileName)
 
 	// 存储页脚内容
